@@ -161,6 +161,16 @@ func vfGenReplicas(rng *rand.Rand, hist bool) ([][]vfSample, string) {
 	n := 1 + rng.Intn(4)
 	interval := vfkit.Pick(rng, []int64{1000, 15000, 30000, 60000})
 	base := int64(1_600_000_000_000) + rng.Int63n(100000)
+	// Timestamps are int64 milliseconds: small, zero-crossing and pre-epoch series are legal inputs too
+	// (no value may be confused with an internal "nothing yet" marker).
+	switch rng.Intn(8) {
+	case 0:
+		base = -rng.Int63n(40 * interval) // series crosses t=0 (includes t=-1, 0, 1 with interval 1000 and no jitter)
+	case 1:
+		base = -int64(1_000_000_000) - rng.Int63n(100000) // entirely pre-epoch
+	case 2:
+		base = rng.Int63n(3) - 1 // starts at -1, 0 or 1
+	}
 	mode := vfkit.Pick(rng, []string{"jitter", "identical", "disjoint", "interleaved", "gappy", "oneempty", "shifted"})
 	value := func(t int64) float64 { return float64((t / 1000) % 1000) }
 	mk := func(ts []int64, salt int) []vfSample {
@@ -212,7 +222,11 @@ func vfGenReplicas(rng *rand.Rand, hist bool) ([][]vfSample, string) {
 			reps = vfkit.Perm(rng, reps)
 		}
 	}
-	return reps, fmt.Sprintf("%s/n=%d/int=%d/hist=%v", mode, n, interval, hist)
+	epoch := "post-epoch"
+	if base < 0 {
+		epoch = "reaches-pre-epoch"
+	}
+	return reps, fmt.Sprintf("%s/n=%d/int=%d/hist=%v/%s", mode, n, interval, hist, epoch)
 }
 
 func TestVF_C01(t *testing.T) {
@@ -230,6 +244,81 @@ func TestVF_C01(t *testing.T) {
 		reps, class := vfGenReplicas(rng, hist)
 		f := vfkit.Pick(rng, vfNonCounterFuncs)
 		r.Guard(c, "dedup-iterator", map[string]any{"class": class, "func": f, "replicas": vfFmtReps(reps)}, func() { vfCheckC01(r, c, reps, f, class, rng) })
+		if c%4 == 0 {
+			vfCheckC01Set(r, c, rng, f)
+		}
+	})
+}
+
+// vfCheckC01Set: a whole series set (2..6 logical series with 1..4 replicas each) read the way the PromQL
+// engines read it - the iterator of the previous series is handed to the next one (`it = s.Iterator(it)`) -
+// must yield, per series, exactly what a fresh iterator (`s.Iterator(nil)`) yields on an identical set.
+func vfCheckC01Set(r *vfkit.Run, c int, rng *rand.Rand, f string) {
+	nSeries := 2 + rng.Intn(5)
+	type lser struct {
+		lset labels.Labels
+		reps [][]vfSample
+	}
+	var lss []lser
+	for i := 0; i < nSeries; i++ {
+		reps, _ := vfGenReplicas(rng, false)
+		if rng.Intn(3) == 0 {
+			reps = reps[:1] // single-replica series in between
+		}
+		lss = append(lss, lser{lset: labels.FromStrings("a", fmt.Sprintf("%02d", i)), reps: reps})
+	}
+	build := func() storage.SeriesSet {
+		var ss []storage.Series
+		for _, l := range lss {
+			for _, rp := range l.reps {
+				smp := make([]chunks.Sample, len(rp))
+				for i := range rp {
+					smp[i] = rp[i]
+				}
+				ss = append(ss, storage.NewListSeries(l.lset, smp))
+			}
+		}
+		return NewSeriesSet(newVfListSeriesSet(ss), f, AlgorithmPenalty)
+	}
+	wit := func() map[string]any {
+		m := map[string]any{"func": f}
+		for i, l := range lss {
+			m[fmt.Sprintf("series_%d", i)] = vfFmtReps(l.reps)
+		}
+		return m
+	}
+	r.Guard(c, "dedup-set-iterator-reuse", wit(), func() {
+		fresh, reuse := build(), build()
+		var it chunkenc.Iterator
+		idx := 0
+		for fresh.Next() {
+			r.Eval(1)
+			if !reuse.Next() {
+				r.Violation(c, "set:series-count-differs", "the set read with iterator reuse ends early", wit())
+				return
+			}
+			total := 0
+			for _, rp := range lss[idx%len(lss)].reps {
+				total += len(rp)
+			}
+			want := vfDrain(fresh.At().Iterator(nil), 1000)
+			it = reuse.At().Iterator(it)
+			got := vfDrain(it, 1000)
+			same := len(got) == len(want)
+			for i := 0; same && i < len(got); i++ {
+				same = vfSameOut(got[i], want[i])
+			}
+			if !same {
+				w := wit()
+				w["series_index"], w["fresh"], w["reused"] = idx, vfFmtOut(want), vfFmtOut(got)
+				r.Violation(c, "set:iterator-reuse-changes-output", fmt.Sprintf("series #%d of the set yields %d samples through Iterator(previous iterator) but %d through Iterator(nil)", idx, len(got), len(want)), w)
+				return
+			}
+			idx++
+		}
+		if idx > 1 {
+			r.Distinct(fmt.Sprintf("set|%v", wit()))
+		}
 	})
 }
 
